@@ -23,9 +23,9 @@ prop(
 
 prop(
     "C10",
-    ["DivanModel.Props.C10"],
-    [lab("alloc", 3000, 60000)],
-    level_text="Unbounded theorems about the Lean model of tally_alloc/tally_dealloc/tally_realloc: for every operation sequence from a cleared tally the per-kind counts and byte sums are exact (|new-old| for reallocs, equal sizes = grow of 0), max_count/max_size equal the maximum over all prefixes (empty one included) of live allocations / live bytes, and operations on other threads leave a thread's tally untouched. Tied to the code by the `alloc` lab: direct tally arithmetic, 1-8 threads allocating concurrently through AllocProfiler<Mock>, and request scripts through the GlobalAlloc methods.",
+    ["DivanModel.Props.C10", "DivanModel.Props.Alignment"],
+    [lab("alloc", 3000, 60000), lab("bench-p250", 600, 12000), lab("sbench-p250", 300, 6000, timeout=900)],
+    level_text="Unbounded theorems about the Lean model of tally_alloc/tally_dealloc/tally_realloc: for every operation sequence from a cleared tally the per-kind counts and byte sums are exact (|new-old| for reallocs, equal sizes = grow of 0), max_count/max_size equal the maximum over all prefixes (empty one included) of live allocations / live bytes, and operations on other threads leave a thread's tally untouched. Tied to the code by the `alloc` lab: direct tally arithmetic, 1-8 threads allocating concurrently through AllocProfiler<Mock>, and request scripts through the GlobalAlloc methods. Round 4: how the runner files each sample's tally (anchor src/benchmark/mod.rs) is covered by `Props/Alignment` (the index -> allocation-information map stays aligned with the recorded samples over every history of clears and rounds) and by the bench labs with 1-4 threads, whose attribution spec recomputes the mean allocation count from the recorded samples' own calls.",
     level_note="Trusted: Lean kernel; the lab and its mock allocator; sizes stay in the documented no-overflow range (running sums < 2^62), outside it the tally segment is not compared. thread_local! slot semantics are Rust's.",
     assumptions=["no 64-bit overflow of the running figures (the code documents that it does not check)"],
 )
@@ -89,7 +89,7 @@ prop(
 prop(
     "C12",
     ["DivanModel.Props.C12", "DivanModel.Props.C12Uniq", "DivanModel.Props.C12Groups"],
-    [lab("reg", 1500, 40000), lab("mac", 480, 9600, timeout=1200)],
+    [lab("reg", 1500, 40000), lab("mac", 480, 9600, timeout=1200), lab("elist", 8, 60)],
     level_text="Theorems on the tree-building model (EntryList order, from_benches/insert_entry, insert_group): every registered plain benchmark and generic instance becomes exactly one leaf below parents named by its path components (buildTree_leaves, a multiset equality), bench_group entries add no leaf, and the placed-leaf multiset is invariant under any permutation of the registration order (order_independent); at every level of the built tree no two parent nodes carry the same raw name, whatever was registered in whatever order (Props/C12Uniq.buildTree_uniq, uniq_same_node): a module is one node; the nodes of the tree are exactly the non-empty prefixes of the registered entries' paths (Props/C12Groups.hasNode_fromBenches), insert_group sets the slot of exactly the node 'module path + raw name' and changes no node (slotAt_insertGroup, hasNode_insertGroup), and therefore a bench_group module with a benchmark at or below it always ends up with its group entry in that node (group_reaches_benchmarks_below; the last registered entry wins when several claim one node - finding F7), from where the walk takes the display name and hands the options down (C15). Tied to the code by the registry lab: entries are pushed into BENCH_ENTRIES/GROUP_ENTRIES in random constructor order exactly as the macro expansion does, the real front end runs, and the executed/listed cases are compared with the model and with the expected case list computed from the abstract program (one per types x consts combination, one per argument, nothing for empty lists). The macro lab renders random programs as Rust source with the real #[divan::bench] / #[divan::bench_group] attributes (raw identifiers, custom names, every option in each of its written forms, types/consts in both parameter orders, literal and external const lists, args as array/vec/reference/iterator of &str, String, i32, f64, bool and a Debug-only type, functions with and without a Bencher), compiles them, and has the child dump what the macros registered - module path, raw and display name, file/line, the BenchOptions, the shape of generic_benches, constructor order - before the real front end runs; registration is compared with the items as written ([C12] spec) and feeds the same front-end model.",
     level_note="Trusted: Lean kernel; registry lab; macro lab (the renderer from items to source is the statement of what 'as written' means; rustc, cargo and the linker's .init_array handling are used, not modelled). Name clash F7 is a recorded finding (not generated by the macro lab).",
     trusted=REG_TRUST,
@@ -112,7 +112,7 @@ prop("C01", ["DivanModel.Props.C01"], BENCH_LABS,
      level_note="Trusted: Lean kernel; bench lab. Undefined behaviour that leaves no trace in events (the MaybeUninit plumbing implementing the protocol) is checked by traces, not proved; Miri is a possible complement.",
      trusted=BENCH_TRUST)
 
-prop("C02", ["DivanModel.Props.C02"], BENCH_LABS + [lab("sbench-p250", 500, 15000, timeout=900)],
+prop("C02", ["DivanModel.Props.C02"], BENCH_LABS + [lab("sbench-p250", 500, 15000, timeout=900), lab("mac", 240, 4800, timeout=1200)],
      level_text="Theorems: with the calls removed the two timestamps of a sample are adjacent (only benchmarked calls are timed), generation/counting precede, snapshot and drops follow, for every size/shape/entry; the allocating events between tally clear and snapshot are exactly the calls (allocation window = timed window). The bench lab runs scripted allocations in generator, benchmarked function and destructors through the global AllocProfiler and compares the per-sample allocation figures in Stats (exact IEEE doubles) and the interleaving of clock reads with events. Round 2-3: call-index dependent ('lazy') allocation scripts and a spec that recomputes, from the trace, the allocator operations of the very calls inside each recorded sample; the sbench lab (barrier waits visible) requires both start waits before the start timestamp and the end wait after the end timestamp.",
      level_note="Trusted: Lean kernel; bench lab. The fences of time/fence.rs and out-of-order execution cannot be expressed by an executable model: program order only.",
      trusted=BENCH_TRUST)
@@ -121,17 +121,17 @@ prop("C03", ["DivanModel.Props.C03"], BENCH_LABS + [lab("reg", 800, 20000)],
      level_text="Theorems on the round-loop model for every (n, s, T) and every clock history below max_time: s*T*ceil(n/T) calls, T*ceil(n/T) samples, ceil(n/T) rounds (n defaults to 100); test mode: one call per thread, nothing stored; n=0, s=0 or max_time=0: no call. The bench lab counts calls per thread and compares samples/iters; the registry lab checks the same through attribute/group/builder/CLI/environment settings.",
      level_note="Trusted: Lean kernel; labs.", trusted=BENCH_TRUST)
 
-prop("C04", ["DivanModel.Props.C04"], BENCH_LABS,
+prop("C04", ["DivanModel.Props.C04"], BENCH_LABS + [lab("reg", 600, 15000)],
      level_text="Theorems for every history of clock readings (non-monotone, zero, huge): the loop condition is literally 'elapsed < max_time and (samples missing or elapsed < min_time)'; max_time has priority also when min_time > max_time; the executed round count is exactly the least one at which the condition fails; elapsed after a round is the latest end timestamp since the initial start, or with skip_ext_time the sum of the slowest timed sections counted >= 1 ns each; max_time = 0 runs nothing. The bench lab scripts generation/call/drop/read costs, compares rounds, per-thread timestamps and the position of the initial_start read, including the first benchmark of a process (cold calibration). Round 2-3: the zero cases (max_time = 0) carry a [C04] verdict of their own.",
      level_note="Trusted: Lean kernel; bench lab; real clocks are not modelled.", trusted=BENCH_TRUST)
 
-prop("C05", ["DivanModel.Props.C05"], BENCH_LABS,
-     level_text="Theorems for every sorted sample list and sample size: fastest/slowest = min/max sample / s, median = middle (mean of the two middle) / s, mean = total / (s*len), hence fastest <= median, mean <= slowest; figures are picked through the index of the sample that supplied the time; per-input counter = sum/s; zero samples give all-zero time statistics. The bench lab compares the complete Stats (integer picoseconds; allocation figures as exact IEEE doubles recomputed in software) and requires that computing statistics never panics. Round 2-3: the four time figures are recomputed from the recorded samples' own timestamps in the trace (spec, not only model comparison); ties in duration are handled by accepting any member of the tied class.",
+prop("C05", ["DivanModel.Props.C05", "DivanModel.Props.Alignment"], BENCH_LABS,
+     level_text="Theorems for every sorted sample list and sample size: fastest/slowest = min/max sample / s, median = middle (mean of the two middle) / s, mean = total / (s*len), hence fastest <= median, mean <= slowest; figures are picked through the index of the sample that supplied the time; per-input counter = sum/s; zero samples give all-zero time statistics; `Props/Alignment`: over every history of tuning-round clears and recorded rounds the three stores of recorded samples (durations, index -> allocation information, one count list per input-counting kind) stay aligned, so the figures found through a sample's index are that sample's own, nothing of a cleared round survives and the totals behind the means are those of the recorded samples (the bench driver executes exactly this model). The bench lab compares the complete Stats (integer picoseconds; allocation figures as exact IEEE doubles recomputed in software) and requires that computing statistics never panics. Round 2-3: the four time figures are recomputed from the recorded samples' own timestamps in the trace (spec, not only model comparison); ties in duration are handled by accepting any member of the tied class.",
      level_note="Trusted: Lean kernel; bench lab; SoftFloat (round-to-nearest-even on non-negative normal doubles) is driver code, validated against the implementation on every case. Ties in duration between differently-tallied samples: sort_unstable's order among them is implementation-defined, so the model accepts the figures of any sample of the tied class (choosePicks) and nothing outside it.",
      trusted=BENCH_TRUST)
 
-prop("C19", ["DivanModel.Props.C19"], BENCH_LABS,
-     level_text="Theorems: a run without sample_size starts at 1; after j rounds at or below 100 whole multiples of the precision and one above, sizes were 1,2,...,2^j, the mode is collect(2^j), exactly the T samples of that round are held and the remaining counter is n-T; every tuning round keeps only its own samples; max_time stops tuning. The bench lab runs tuned benchmarks under three precisions (1, 250, 999 ps) with constant/growing costs and max_time cutting tuning short. Round 2-3: specs on the implementation's own trace: all reported samples have the final size and iterations = samples x size; a run that ends while the replayed model is still tuning (no round beyond 100 x precision, max_time not reached) is reported; allocation data of discarded rounds must not surface.",
+prop("C19", ["DivanModel.Props.C19", "DivanModel.Props.Alignment"], BENCH_LABS,
+     level_text="Theorems: a run without sample_size starts at 1; after j rounds at or below 100 whole multiples of the precision and one above, sizes were 1,2,...,2^j, the mode is collect(2^j), exactly the T samples of that round are held and the remaining counter is n-T; every tuning round keeps only its own samples (`Props/Alignment`: in all three stores - durations, allocation information, every kind's per-input counts); max_time stops tuning. The bench lab runs tuned benchmarks under three precisions (1, 250, 999 ps) with constant/growing costs and max_time cutting tuning short. Round 2-3: specs on the implementation's own trace: all reported samples have the final size and iterations = samples x size; a run that ends while the replayed model is still tuning (no round beyond 100 x precision, max_time not reached) is reported; allocation data of discarded rounds must not surface.",
      level_note="Trusted: Lean kernel; bench lab; Timer::precision() is calibrated once per lab process on a uniform-step virtual clock (C11).", trusted=BENCH_TRUST)
 
 prop("C08", ["DivanModel.Props.C08"], BENCH_LABS + [lab("sbench-p250", 700, 15000, timeout=900)],
